@@ -63,7 +63,9 @@ def check_item(ob, case, item, site, K=1):
     try:
         spec, outs, block = elaborate(item, case)
     except Exception as e:
-        if case.get('expect_error'):
+        if case.get('expect_error') or case.get('may_error'):
+            # may_error: the documentation leaves open whether the arguments are accepted; only a clean PyrtlError or a
+            # correct result are allowed
             ob.fact('documented-error-raised', isinstance(e, pyrtl.PyrtlError), site + ':error-kind', detail=repr(e))
             return
         ob.fact('elaboration-accepts-documented-arguments', False, site + ':raises', detail='%s: %s' % (type(e).__name__, e))
@@ -111,7 +113,9 @@ def replay_item(cex, item):
     try:
         spec, outs, block = elaborate(item, case)
     except Exception as e:
-        return (not case.get('expect_error')), 'elaboration raised %s: %s' % (type(e).__name__, e)
+        if case.get('expect_error') or case.get('may_error'):
+            return (not isinstance(e, pyrtl.PyrtlError)), 'elaboration raised %s: %s' % (type(e).__name__, e)
+        return True, 'elaboration raised %s: %s' % (type(e).__name__, e)
     if cex.get('structural'):
         bad = ['%s len=%d documented=%d' % (n, len(spec['outs'][n]), w) for n, w in spec.get('widths', {}).items()
                if len(spec['outs'][n]) != w]
